@@ -1,7 +1,7 @@
 #!/usr/bin/env python3
 """Generates harness/src/shapes_gen.rs: struct shapes for both derive macros (C20).
 
-Shapes have 1..8 fields of mixed probe types (repeated types included), fields that are
+Shapes have 1..8 fields (plus two wide ones with 11 and 13) of mixed probe types (repeated types included), fields that are
 themselves derived sets (nesting <= 2), field names deliberately NOT in alphabetical order,
 single-line bodies without a trailing comma as well as multi-line bodies with one."""
 import random
@@ -63,6 +63,16 @@ def emit(kind):
     order = []
     for i in range(N_SHAPES):
         s = make(prefix, i, 0 if i >= 6 else 2, order[:])
+        shapes[s["name"]] = s
+        order.append(s["name"])
+    # wide shapes (more than ten members: two-digit member indices), drawn from their own generator so that the
+    # shapes above stay what they were
+    RW = random.Random(7700 + len(prefix) + ord(prefix))
+    for n, style in ((11, "oneline"), (13, "macro")):
+        names = RW.sample(NAMES, n)
+        if names == sorted(names):
+            names.reverse()
+        s = {"name": f"{prefix}W{n}", "fields": [(nm, ("probe", RW.choice(["Probe", "Probe", "Probe2", "Probe3"]))) for nm in names], "style": style}
         shapes[s["name"]] = s
         order.append(s["name"])
     L = []
